@@ -64,7 +64,7 @@ def build_tools():
     return _built
 
 
-def hook(requests, timeout=600, per_request=8.0):
+def hook(requests, timeout=600, per_request=8.0, max_timeouts=4):
     """Send JSON requests to verifcmd, one per line; return list of responses.  A request that gets no
     answer within per_request seconds (the real code loops or exhausts memory) is answered
     {"timeout": true} and the command is restarted for the remaining requests."""
@@ -72,7 +72,11 @@ def hook(requests, timeout=600, per_request=8.0):
     t = build_tools()
     out = []
     start = 0
+    ntimeouts = 0
     while start < len(requests):
+        if ntimeouts >= max_timeouts:
+            out += [{"skipped": True, "panic": "not evaluated: the analysis already failed to answer %d requests" % ntimeouts}] * (len(requests) - start)
+            break
         p = subprocess.Popen([t["verifcmd"]], stdin=subprocess.PIPE, stdout=subprocess.PIPE, stderr=subprocess.DEVNULL)
         batch = requests[start:]
 
@@ -111,6 +115,7 @@ def hook(requests, timeout=600, per_request=8.0):
         if dead and got < len(batch):
             out.append({"timeout": True, "panic": "no answer within %.0fs (non-termination or crash of the analysis)" % per_request})
             got += 1
+            ntimeouts += 1
         start += got
     return out
 
